@@ -99,37 +99,51 @@ class Ctx:
 
     # -- proofs -------------------------------------------------------------------------------------
     def prove(self, modules: list[str]):
-        """build the Props modules and audit them; records obligations / discharged / broken."""
+        """regenerate the fact tables from /repo, build the Props / table-obligation modules and audit them;
+        records obligations / discharged / broken (per module, so one failing table does not hide the other theorems)."""
+        try:
+            self.facts = lean.regenerate_facts()
+        except SyntaxError as e:
+            raise lean.InfraError(f"/repo does not parse: {e}")
         ok, out = lean.lake_build(["Driver"] + modules)
-        names = []
+        good = list(modules)
+        if not ok:
+            ok_driver, out_d = lean.lake_build(["Driver"])
+            if not ok_driver:
+                raise lean.InfraError("model/driver do not build:\n" + out_d[-3000:])
+            good = []
+            for m in modules:
+                okm, outm = lean.lake_build([m])
+                if okm:
+                    good.append(m)
+                else:
+                    self.broken.append(f"module {m} does not build")
+                    self.extra.setdefault("build_output_tail", "")
+                    self.extra["build_output_tail"] += f"\n--- {m} ---\n" + "\n".join(l for l in outm.splitlines() if "error" in l or "decide" in l)[-1500:]
+        names = {}
         for m in modules:
             p = lean.LEAN_DIR / (m.replace(".", "/") + ".lean")
             if p.exists():
-                names += lean.theorems_of(p)
+                names[m] = lean.theorems_of(p)
             else:
                 self.broken.append(f"module {m} missing")
-        self.obligations += names
-        if not ok:
-            self.broken.append("lake build failed")
-            self.extra["build_output_tail"] = out[-3000:]
-            # the driver may still be usable if only a Props module failed
-            ok2, _ = lean.lake_build(["Driver"])
-            if not ok2:
-                raise lean.InfraError("model/driver do not build:\n" + out[-3000:])
-            # which theorems failed: the ones named in error lines; conservatively: try the audit below
+                names[m] = []
         try:
-            a = lean.audit(modules) if ok else {"theorems": {}, "bad_axioms": {}, "forbidden": [], "ok": False}
+            a = lean.audit(good) if good else {"theorems": {}, "bad_axioms": {}, "forbidden": [], "ok": True}
         except Exception as e:  # audit itself failing is infrastructure
             raise lean.InfraError(f"audit failed: {e}")
-        for n in names:
-            if ok and n in a["theorems"] and n not in a["bad_axioms"]:
-                self.discharged.append(n)
-            else:
-                self.broken.append(f"theorem {n}")
+        for m, ns in names.items():
+            for n in ns:
+                self.obligations.append(n)
+                if m in good and n in a["theorems"] and n not in a["bad_axioms"]:
+                    self.discharged.append(n)
+                else:
+                    self.broken.append(f"theorem {n}")
         for f, tok in a["forbidden"]:
             self.broken.append(f"forbidden token {tok!r} in {f}")
         self.extra["axioms"] = sorted({x for v in a["theorems"].values() for x in v})
-        return ok
+        self.extra["modules"] = modules
+        return not self.broken
 
     # -- finish -------------------------------------------------------------------------------------
     def finish(self, level: str = "proof", assumptions: list[str] | None = None) -> int:
@@ -170,7 +184,7 @@ class Ctx:
             print(f"VIOLATION property={self.prop} replay={rp}{tail}")
         cov = {
             "obligations": len(self.obligations) + self.table_obligations,
-            "discharged": len(self.discharged) + (self.table_obligations if "lake build failed" not in self.broken else 0),
+            "discharged": len(self.discharged) + self.table_obligations,
             "checker_cmd": "cd /verif/lean && lake build && lake env lean <audit file with #print axioms for every Props theorem>",
             "trusted_base": TRUSTED_BASE,
             "theorems": self.obligations,
